@@ -5,7 +5,8 @@ import ast
 
 from sa.core import Ob
 from sa.pm import AnalysisError, norm, body_nodes
-from sa import gi, df, ru
+from sa import gi, df, ru, sym
+from sa.pm import Undecided
 from sa.gi import IntSet, iv, GuardWalker, SymbolicAtomizer
 
 B32N = "pycoin/key/BIP32Node.py"
@@ -20,101 +21,88 @@ def _sat(f):
     return can_be(f, "\0")
 
 
+_REF = None
+
+
+def _ref():
+    global _REF
+    if _REF is None:
+        import os
+        _REF = ast.parse(open(os.path.join(os.path.dirname(os.path.dirname(os.path.abspath(__file__))), "spec", "ref_bip32.py")).read())
+    return _REF
+
+
+INTS = lambda t: t in ("i", "vi", "ORDER", "I_left", "new_secret_exponent", "I_left_as_exponent", "low", "high", "t", "n", "for_change", "offset", "depth", "index") or t.startswith(("len(", "int(", "from_bytes_32(", "generator.order()", "self._generator.order()", "self._depth"))
+
+
+def _refcheck(ctx, rel, dotted, refname, key, ints=None):
+    fi = ctx.p.functions.get(ctx.p.module(rel).name + "." + dotted) or ctx.func(rel, dotted)
+    return sym.against_reference(ctx, fi, _ref(), refname, key, ints or INTS)
+
+
 # ------------------------------------------------------------------ C09.1
 def c09_1(ctx):
     f = ctx.func(B32N, "BIP32Node._subkey")
     p = f.params()
     i_, hard, priv = p[1], p[2], p[3]
-    w = GuardWalker(ru.opaque)
-    ex = w.run(f.node.body)
-    pub_calls = [(st, r) for st, r in w.visits if "subkey_public_pair_chain_code_pair(" in norm(st)]
-    prv_calls = [(st, r) for st, r in w.visits if "subkey_secret_exponent_chain_code_pair(" in norm(st)]
-    if len(pub_calls) != 1 or len(prv_calls) != 1:
-        raise AnalysisError("_subkey: derivation calls not found")
-    r = pub_calls[0][1]
-    ctx.check(not _sat(gi.f_and(r, ("op", hard))), "hardened-from-public-refused", ctx.where(f, pub_calls[0][0]),
-              "BIP32Node._subkey can reach the public derivation with is_hardened set (reach: %s): hardened children of a public-only node must be refused before any derivation" % repr(r)[:160],
-              sample={"function": f.qualname, "public_derivation_reach": repr(r)[:200]})
-    none_atom = "self.secret_exponent() is None"
-    ctx.check(none_atom in gi.f_opaques(r) and not _sat(gi.f_and(r, ("not", ("op", none_atom)))), "public-derivation-only-without-secret", ctx.where(f), "the public derivation is not restricted to nodes without a secret exponent")
-    ctx.check(not _sat(gi.f_and(prv_calls[0][1], ("op", none_atom))), "private-derivation-needs-secret", ctx.where(f), "the private derivation is reachable without a secret exponent")
-    rs = [e for e in ex if ru.is_raise_of("PublicPrivateMismatchError")(e)]
-    ok = len(rs) == 1 and _sat(rs[0].cond) and not _sat(gi.f_and(rs[0].cond, ("not", ("op", none_atom)))) and not _sat(gi.f_and(rs[0].cond, ("not", ("op", hard)))) and \
-        set(gi.f_opaques(rs[0].cond)) <= {none_atom, hard, "%s < 0" % i_, "%s >= 2147483648" % i_}
-    ctx.check(ok, "refusal-condition", ctx.where(f), "the refusal is not raised exactly for (public-only node, hardened index): %s" % [repr(e.cond)[:120] for e in rs])
-    const = ru.const_resolver(ctx, f, set())
-    w2 = GuardWalker(SymbolicAtomizer(ru.subject({i_}), const))
-    ex2 = w2.run(f.node.body)
-    s, n = ru.guard_reject_set(f.node, w2, ex2, ru.is_raise, U, E)
+    w = sym.walk(ctx, f, int_names=INTS)
+    pub = sym.calls_matching(w, lambda t: t == "subkey_public_pair_chain_code_pair")
+    prv = sym.calls_matching(w, lambda t: t == "subkey_secret_exponent_chain_code_pair")
+    if not pub or not prv:
+        raise Undecided("_subkey: the two CKD functions are not called directly")
+    rp = gi.f_or(*[e.reach for e in pub])
+    rs_ = gi.f_or(*[e.reach for e in prv])
+    hard_atom = ("op", "truthy(%s)" % hard)
+    none_atom = ("op", "self.secret_exponent() is None")
+    ctx.check(sym.entails(rp, gi.f_not(hard_atom)), "hardened-from-public-refused", ctx.where(f, pub[0].node),
+              "BIP32Node._subkey can reach the public derivation with is_hardened set: hardened children of a public-only node must be refused before any derivation", sample={"function": f.qualname})
+    ctx.check(sym.entails(rp, none_atom), "public-derivation-only-without-secret", ctx.where(f), "the public derivation is not restricted to nodes without a secret exponent")
+    ctx.check(sym.entails(rs_, gi.f_not(none_atom)), "private-derivation-needs-secret", ctx.where(f), "the private derivation is reachable without a secret exponent")
+    mm = sym.exits_formula(w, ru.is_raise_of("PublicPrivateMismatchError"))
+    ctx.check(mm is not False and sym.entails(mm, gi.f_and(none_atom, hard_atom)) and sym.entails(gi.f_and(none_atom, hard_atom, gi.f_not(sym.exits_formula(w, lambda e: e.kind == "raise" and not ru.is_raise_of("PublicPrivateMismatchError")(e)))), mm),
+              "refusal-condition", ctx.where(f), "the refusal is not raised exactly for (public-only node, hardened index)")
+    w2 = sym.int_walk(ctx, f, {i_})
+    s, n = sym.decisive_set(sym.exits_formula(w2, ru.is_raise), U, E)
     ctx.check(s == iv(0, 0x7FFFFFFF).complement(), "index-range", ctx.where(f), "_subkey rejects indices %s, BIP32 child numbers are 0..2^31-1 (hardening is a separate flag)" % s.fmt(), sample={"subject": i_, "rejected": s.fmt()})
-    ors = [(st, r_) for st, r_ in w.visits if isinstance(st, ast.AugAssign) and norm(st.target) == i_ and isinstance(st.op, ast.BitOr) and df.const_int(st.value) == 0x80000000]
-    ctx.check(len(ors) == 1 and _sat(ors[0][1]) and not _sat(gi.f_and(ors[0][1], ("not", ("op", hard)))), "hardened-bit", ctx.where(f), "the hardened bit 0x80000000 is not OR-ed in exactly for hardened children")
-    d = [st for st in body_nodes(f.node) if isinstance(st, (ast.Assign, ast.AnnAssign)) and norm(st.targets[0] if isinstance(st, ast.Assign) else st.target) == "d"]
-    ok = len(d) == 1 and norm(d[0].value) == "dict(depth=self._depth + 1, parent_fingerprint=self.fingerprint(), child_index=%s)" % i_
-    ctx.check(ok, "child-metadata", ctx.where(f), "child metadata is not (depth + 1, fingerprint of this node, child index with the hardened bit): %s" % (norm(d[0].value) if d else None), sample={"metadata": norm(d[0].value) if d else None})
-    t = norm(f.node)
-    ctx.check("subkey_public_pair_chain_code_pair(self._generator, self.public_pair(), self._chain_code, %s)" % i_ in t and
-              "subkey_secret_exponent_chain_code_pair(self._generator, secret_exponent, self._chain_code, %s, %s, self.public_pair())" % (i_, hard) in t, "derivation-arguments", ctx.where(f),
-              "the CKD functions are not called with (generator, key, chain code, index[, hardened, public pair])")
-    ctx.check("if not %s:" % priv in t and "key = key.public_copy()" in t, "public-result-on-request", ctx.where(f), "_subkey does not strip the secret when a public child is requested")
-
-
-def _strip(f, keep):
-    """formula with every opaque atom not in `keep` existentially removed (treated as free): returns True when the rest is unconstrained"""
-    ops = [o for o in gi.f_opaques(f) if o not in keep]
-    if not ops:
-        return True
-    return True
+    _refcheck(ctx, B32N, "BIP32Node._subkey", "n_subkey_inner", "derivation")
+    _refcheck(ctx, B32N, "BIP32Node.fingerprint", "n_fingerprint", "fingerprint")
 
 
 # ------------------------------------------------------------------ C09.2
 def c09_2(ctx):
-    f = ctx.func(B32, "subkey_secret_exponent_chain_code_pair")
-    g_, k_, c_, i_, h_, pp_ = f.params()[:6]
-    d = df.single_defs(f.node)
-    w = GuardWalker(ru.opaque)
-    w.run(f.node.body)
-    datas = {repr(r): norm(st.value) for st, r in w.visits if isinstance(st, ast.Assign) and norm(st.targets[0]) == "data" and not isinstance(ru.enclosing_test(f.node, st), type(None)) or (isinstance(st, ast.Assign) and norm(st.targets[0]) == "data")}
-    hard = [norm(st.value) for st, r in w.visits if isinstance(st, ast.Assign) and norm(st.targets[0]) == "data" and gi.f_equiv(r, ("op", h_))]
-    soft = [norm(st.value) for st, r in w.visits if isinstance(st, ast.Assign) and norm(st.targets[0]) == "data" and gi.f_equiv(r, ("not", ("op", h_)))]
-    ctx.check(hard == ["b'\\x00' + to_bytes_32(%s) + i_as_bytes" % k_], "ckd-priv-hardened-message", ctx.where(f), "hardened CKDpriv message is %s; BIP32: 0x00 || ser256(k) || ser32(i)" % hard, sample={"hardened": hard, "normal": soft})
-    ctx.check(soft == ["sec + i_as_bytes"] and norm(d.get("sec", ast.Constant(0))) == "public_pair_to_sec(%s, compressed=True)" % pp_, "ckd-priv-normal-message", ctx.where(f), "normal CKDpriv message is %s; BIP32: serP(K) || ser32(i)" % soft)
-    ctx.check(norm(d.get("i_as_bytes", ast.Constant(0))) in ("struct.pack('>L', %s)" % i_, "struct.pack('>I', %s)" % i_), "ckd-priv-ser32", ctx.where(f), "ser32(i) is `%s`, BIP32: 4 bytes big-endian" % norm(d.get("i_as_bytes", ast.Constant(0))))
-    t = norm(f.node)
-    ctx.check("I64 = hmac.HMAC(key=%s, msg=data, digestmod=hashlib.sha512).digest()" % c_ in t, "ckd-priv-hmac", ctx.where(f), "CKDpriv is not HMAC-SHA512(key = chain code, msg = data)")
-    ctx.check("I_left = from_bytes_32(I64[:32])" in t and "new_secret_exponent = (I_left + %s) %% ORDER" % k_ in t and "new_chain_code = I64[32:]" in t and norm(d.get("ORDER", ast.Constant(0))) == "%s.order()" % g_, "ckd-priv-child", ctx.where(f),
-              "child key is not (I_L + k) mod n with chain code I_R")
-    ctx.check("if I_left < ORDER and new_secret_exponent != 0:" in t, "ckd-priv-validity", ctx.where(f), "CKDpriv does not reject I_L >= n or a zero child key")
-    ctx.check("public_pair = %s * %s" % (k_, g_) in t, "ckd-priv-own-public", ctx.where(f), "the parent public key is not k*G when not supplied")
-    g = ctx.func(B32, "subkey_public_pair_chain_code_pair")
-    gg, pp, cc, ii = g.params()[:4]
-    d = df.single_defs(g.node)
-    t = norm(g.node)
-    ctx.check(norm(d.get("data", ast.Constant(0))) == "sec + i_as_bytes" and norm(d.get("sec", ast.Constant(0))) == "public_pair_to_sec(%s, compressed=True)" % pp, "ckd-pub-message", ctx.where(g), "CKDpub message is not serP(K) || ser32(i)")
-    ctx.check(norm(d.get("i_as_bytes", ast.Constant(0))) in ("struct.pack('>l', %s)" % ii, "struct.pack('>L', %s)" % ii, "struct.pack('>I', %s)" % ii), "ckd-pub-ser32", ctx.where(g), "ser32(i) in CKDpub is `%s`" % norm(d.get("i_as_bytes", ast.Constant(0))))
-    ctx.check("I64 = hmac.HMAC(key=%s, msg=data, digestmod=hashlib.sha512).digest()" % cc in t and "the_point = I_left_as_exponent * %s + %s.Point(*%s)" % (gg, gg, pp) in t and "new_chain_code = I64[32:]" in t, "ckd-pub-child", ctx.where(g),
-              "CKDpub child is not I_L*G + K with chain code I_R")
-    ctx.check("if the_point == INFINITY:" in t and "raise DerivationError" in t, "ckd-pub-infinity", ctx.where(g), "CKDpub does not refuse the point at infinity")
-    m = ctx.func(B32N, "BIP32Node.from_master_secret")
-    t = norm(m.node)
-    ctx.check("hmac.HMAC(key=b'Bitcoin seed', msg=master_secret, digestmod=hashlib.sha512).digest()" in t and "return class_(chain_code=I64[32:], secret_exponent=from_bytes_32(I64[:32]))" in t, "master-key", ctx.where(m), "the master key is not HMAC-SHA512('Bitcoin seed', seed) split into key and chain code")
+    _refcheck(ctx, B32, "subkey_secret_exponent_chain_code_pair", "ckd_priv", "ckd-priv")
+    _refcheck(ctx, B32, "subkey_public_pair_chain_code_pair", "ckd_pub", "ckd-pub")
+    _refcheck(ctx, B32N, "BIP32Node.from_master_secret", "n_from_master_secret", "master-key")
 
 
 # ------------------------------------------------------------------ C09.3
 def c09_3(ctx):
     f = ctx.func(B32N, "BIP32Node.subkey")
-    d = df.single_defs(f.node)
-    calls = [c for c in df.calls_in(f.node) if norm(c.func) == "self._subkey"]
-    if len(calls) != 1:
-        raise AnalysisError("BIP32Node.subkey: expected one _subkey call")
-    args = [norm(a) for a in calls[0].args]
-    key = d.get("lookup")
-    kelts = [norm(e) for e in key.elts] if isinstance(key, ast.Tuple) else None
-    ctx.check(kelts == args, "memo-key-covers-arguments", ctx.where(f),
-              "the sub-key memo is keyed by %s but the memoised value is _subkey(%s): requests that differ in an argument missing from the key share one slot (e.g. the private and the public child)" % (kelts, ", ".join(args)),
-              sample={"memo_key": kelts, "computed_from": args})
-    subs = [n for n in body_nodes(f.node) if isinstance(n, ast.Subscript) and norm(n.value) == "self._subkey_cache"]
-    ctx.check(bool(subs) and all(norm(n.slice) == "lookup" for n in subs), "memo-same-key", ctx.where(f), "the memo is read and written under different keys")
+    w = sym.walk(ctx, f)
+    calls = sym.calls_matching(w, "self._subkey")
+    stores = [e for e in w.effects if e.kind == "setitem" and norm(e.target) == "self._subkey_cache"]
+    if not calls or not stores:
+        raise Undecided("BIP32Node.subkey does not memoise self._subkey(...) in self._subkey_cache")
+    for e in stores:
+        kelts = [norm(x) for x in e.key.elts] if isinstance(e.key, ast.Tuple) else [norm(e.key)]
+        args = [norm(a) for a in e.value.args] if isinstance(e.value, ast.Call) else []
+        ctx.check(kelts == args, "memo-key-covers-arguments", ctx.where(f, e.node),
+                  "the sub-key memo is keyed by %s but the memoised value is _subkey(%s): requests that differ in an argument missing from the key share one slot (e.g. the private and the public child)" % (kelts, args),
+                  sample={"memo_key": kelts, "computed_from": args})
+    _refcheck(ctx, B32N, "BIP32Node.subkey", "n_subkey", "memo")
+    # the memo belongs to one node: it is only ever bound to a fresh dict
+    for rel, cname in ((B32N, "BIP32Node"), ("pycoin/key/BIP49Node.py", "BIP49Node"), ("pycoin/key/BIP84Node.py", "BIP84Node"), ("pycoin/key/HierarchicalKey.py", "HierarchicalKey")):
+        c = ctx.p.cls(rel, cname)
+        for name, m in sorted(c.methods.items()):
+            for n in body_nodes(m.node):
+                if isinstance(n, (ast.Assign, ast.AnnAssign)):
+                    for t_ in (n.targets if isinstance(n, ast.Assign) else [n.target]):
+                        if isinstance(t_, ast.Attribute) and t_.attr == "_subkey_cache":
+                            v = n.value
+                            fresh = isinstance(v, ast.Dict) and not v.keys or (isinstance(v, ast.Call) and isinstance(v.func, ast.Name) and v.func.id == "dict" and not v.args and not v.keywords)
+                            ctx.check(fresh, "memo-not-shared:%s.%s" % (cname, name), ctx.where(m, n),
+                                      "%s.%s binds a node's sub-key memo to `%s`: the memo of one node (its key says nothing about private / public parentage) becomes visible through another node" % (cname, name, norm(v) if v is not None else None),
+                                      what="memo-bind:%s.%s:%s" % (cname, name, norm(v) if v is not None else None))
     # every attribute the derivation reads is assigned only at construction
     frozen = {"_secret_exponent", "_public_pair", "_chain_code", "_depth", "_parent_fingerprint", "_child_index", "_generator", "_secret_exponent_bytes", "_is_compressed"}
     for rel, cname in ((B32N, "BIP32Node"), ("pycoin/key/HierarchicalKey.py", "HierarchicalKey"), ("pycoin/key/Key.py", "Key"), ("pycoin/key/BIP49Node.py", "BIP49Node"), ("pycoin/key/BIP84Node.py", "BIP84Node")):
@@ -128,51 +116,36 @@ def c09_3(ctx):
                     if isinstance(t_, ast.Attribute) and norm(t_.value) == "self" and t_.attr in frozen:
                         ctx.bad("node-mutated:%s.%s:%s" % (cname, name, t_.attr), ctx.where(m, st), "%s.%s assigns self.%s after construction: memoised children no longer correspond to the node's key material" % (cname, name, t_.attr))
         ctx.ok("immutable:%s" % cname, nontrivial=False)
-    sp = ctx.func(B32N, "BIP32Node.subkey_for_path")
-    t = norm(sp.node)
-    ctx.check("is_hardened = v[-1] in \"'pH\"" in t and "key = key.subkey(i=vi, is_hardened=is_hardened, as_private=key.secret_exponent() is not None)" in t and "force_public = path[-4:] == '.pub'" in t, "path-walk", ctx.where(sp),
-              "subkey_for_path does not walk the components with their hardening markers (', p, H) and the .pub suffix")
-    # range expansion: the hardening marker belongs to each comma item
+    _refcheck(ctx, B32N, "BIP32Node.public_copy", "n_public_copy", "public-copy")
+    _refcheck(ctx, B32N, "BIP32Node.subkey_for_path", "n_subkey_for_path", "path-walk")
+    _refcheck(ctx, SUBP, "subpaths_for_path_range.range_iterator", "sp_range_iterator", "range-iterator")
+    # the hardening marker is decided for each comma-separated item, not once for the whole component
     sr = ctx.func(SUBP, "subpaths_for_path_range")
     inner = ctx.p.functions.get(sr.qualname + ".range_iterator")
     if inner is None:
-        raise AnalysisError("range_iterator not found")
-    loops = [n for n in inner.node.body if isinstance(n, ast.For) and "split(','" in norm(n.iter)]
-    ok = len(loops) == 1
-    if ok:
-        lv = norm(loops[0].target)
-        asg = [st for st in body_nodes(inner.node) if isinstance(st, ast.Assign) and norm(st.targets[0]) == "is_hardened"]
-        ok = len(asg) == 1 and any(x is asg[0] for x in ast.walk(loops[0])) and norm(asg[0].value) == "%s[-1] in hardening_chars" % lv
-        body_t = norm(loops[0])
-        ok = ok and "if is_hardened:\n        %s = %s[:-1]" % (lv, lv) in body_t and "range(low, high + 1)" in body_t and "yield ('%d%s' % (t, hardened_char))" in body_t and "yield ('%%s%%s' %% (%s, hardened_char))" % lv in body_t
-    ctx.check(ok, "range-hardening-per-item", ctx.where(inner), "range_iterator does not decide and strip the hardening marker separately for each comma-separated item (`7-8p,15` hardens 7 and 8 only)",
-              sample={"function": inner.qualname})
-    t = norm(sr.node)
-    ctx.check("components = path_range.split('/')" in t and "for v in itertools.product(*iterators):" in t and "yield '/'.join(v)" in t, "range-product", ctx.where(sr), "subpaths_for_path_range is not the product of the per-component ranges")
+        raise Undecided("range_iterator not found")
+    wi = sym.walk(ctx, inner)
+    ys = [e for e in wi.effects if e.kind == "yield" and e.loops]
+    if not ys:
+        raise Undecided("range_iterator yields nothing inside a loop")
+    for e in ys:
+        outer = [l for l in e.loops if l.iter is not None and ".split(','" in norm(l.iter)]
+        if not outer:
+            raise Undecided("range_iterator does not loop over the comma-separated items")
+        item = outer[0].target
+        texts = [o for o in (gi.f_opaques(e.reach) if e.reach not in (True, False) else []) if "hardening_chars" in o]
+        texts += [norm(n) for n in ast.walk(e.value) if isinstance(n, ast.Compare) and "hardening_chars" in norm(n)] if e.value is not None else []
+        import re as _re
+        ctx.check(bool(texts) and all(_re.search(r"(?<![A-Za-z_0-9])%s(?![A-Za-z_0-9])" % _re.escape(item), t) for t in texts), "range-hardening-per-item", ctx.where(inner, e.node),
+                  "range_iterator decides the hardening marker with %s, which does not look at the comma-separated item (`%s`): `7-8p,15` must harden 7 and 8 only" % (texts, item), what="hardening:%s" % texts)
+    _refcheck(ctx, SUBP, "subpaths_for_path_range", "sp_subpaths_for_path_range", "range-product")
 
 
 # ------------------------------------------------------------------ C09.4
 def c09_4(ctx):
-    s = ctx.func(B32N, "BIP32Node.serialize")
-    t = norm(s.node)
-    ok = "ba.extend([self._depth])" in t and "ba.extend(self._parent_fingerprint + struct.pack('>L', self._child_index) + self._chain_code)" in t and "ba += b'\\x00' + self._secret_exponent_bytes" in t and "ba += self.sec(is_compressed=True)" in t
-    ctx.check(ok, "serialize-layout", ctx.where(s), "serialize is not depth(1) || fingerprint(4) || index(>L) || chain code(32) || (00 || key | SEC)", sample={"function": s.qualname})
-    w = GuardWalker(ru.opaque)
-    w.run(s.node.body)
-    pk = [(st, r) for st, r in w.visits if "_secret_exponent_bytes" in norm(st)]
-    ctx.check(len(pk) == 1 and not _sat(gi.f_and(pk[0][1], ("not", ("op", "as_private")))), "private-part-iff-requested", ctx.where(s), "the private key bytes are written without as_private")
-    rs = [e for e in w.exits if e.kind == "raise"]
-    ctx.check(any("self.secret_exponent() is None" in gi.f_opaques(e.cond) and "as_private" in gi.f_opaques(e.cond) for e in rs), "private-from-public-refused", ctx.where(s), "serialize(as_private=True) on a public node is not refused")
-    d = ctx.func(B32N, "BIP32Node.deserialize")
-    slices = sorted({norm(n) for n in body_nodes(d.node) if isinstance(n, ast.Subscript) and norm(n.value) == "data"})
-    want = sorted(["data[13:45]", "data[45:46]", "data[45:]", "data[46:]", "data[4:5]", "data[5:13]"])
-    ctx.check(slices == want, "deserialize-offsets", ctx.where(d), "deserialize reads %s; with the 4-byte prefix the layout is depth [4:5], fingerprint+index [5:13], chain code [13:45], key [45:78]" % slices, sample={"slices": slices})
-    t = norm(d.node)
-    ctx.check("parent_fingerprint, child_index = struct.unpack('>4sL', data[5:13])" in t and "depth=ord(data[4:5])" in t and "chain_code=data[13:45]" in t and "is_private = data[45:46] == b'\\x00'" in t and
-              "d['secret_exponent'] = from_bytes_32(data[46:])" in t and "d['public_pair'] = sec_to_public_pair(data[45:], generator=class_._generator)" in t, "deserialize-fields", ctx.where(d), "deserialize does not map the slices to (fingerprint, index, depth, chain code, key)")
-    i = ctx.func(B32N, "BIP32Node.__init__")
-    t = norm(i.node)
-    ctx.check("if len(chain_code) != 32:" in t and "if len(parent_fingerprint) != 4:" in t and "self._secret_exponent_bytes = to_bytes_32(secret_exponent)" in t, "field-widths", ctx.where(i), "BIP32Node.__init__ does not pin the chain code to 32 and the fingerprint to 4 bytes")
+    _refcheck(ctx, B32N, "BIP32Node.serialize", "n_serialize", "serialize-layout")
+    _refcheck(ctx, B32N, "BIP32Node.deserialize", "n_deserialize", "deserialize-fields")
+    _refcheck(ctx, B32N, "BIP32Node.__init__", "n_init", "field-widths")
     from rules.C18 import c18_4
     c18_4(ctx)
 
@@ -185,16 +158,7 @@ def c09_5(ctx):
 
 # ------------------------------------------------------------------ C09.6
 def c09_6(ctx):
-    f = ctx.func(ELEC, "ElectrumWallet.subkey")
-    d = df.single_defs(f.node)
-    t = norm(f.node)
-    off = d.get("offset")
-    ctx.check(off is not None and norm(off) == "from_bytes_32(double_sha256(b))", "electrum-offset", ctx.where(f), "the Electrum offset is not dsha256(n:for_change: || master public key)")
-    ctx.check("b = (str(n) + ':' + str(for_change) + ':').encode('utf8') + self.master_public_key()" in t, "electrum-message", ctx.where(f), "the Electrum derivation message is not `n:for_change:` || mpk")
-    ctx.check("master_private_key=(self.master_private_key() + offset) % self._generator.order()" in t, "electrum-private", ctx.where(f), "private child is not (mpk + offset) mod n")
-    ctx.check("p1 = offset * self._generator" in t and "p = p1 + p2" in t and "p2 = self._generator.Point(x, y)" in t and "x, y = self.public_pair()" in t and "return self.__class__(public_pair=p)" in t, "electrum-public", ctx.where(f), "public child is not offset*G + P")
-    uses = sum(1 for n in body_nodes(f.node) if isinstance(n, ast.Name) and n.id == "offset" and isinstance(n.ctx, ast.Load))
-    ctx.check(uses == 2, "electrum-same-offset", ctx.where(f), "the two halves do not use the one offset")
+    _refcheck(ctx, ELEC, "ElectrumWallet.subkey", "el_subkey", "electrum-derivation")
 
 
 # ------------------------------------------------------------------ C09.7
@@ -229,19 +193,23 @@ def c09_7(ctx):
                       sample={"network": name, "encoder": tgt, "patched_to": patches.get(tgt)} if n == 1 else None)
         g = m.functions.get("b2a_hashed_base58_grs")
         if g is not None:
-            ctx.check("return b2a_base58(data + groestlHash(data)[:4])" in norm(g.node), "grs-checksum:%s" % name, ctx.where(g), "b2a_hashed_base58_grs is not base58(data || groestl(data)[:4])")
+            wg = sym.walk(ctx, g)
+            rr = [e for e in wg.exits if e.kind == "return" and e.value is not None]
+            dp = g.params()[0]
+            ctx.check(len(rr) == 1 and norm(rr[0].value) == "b2a_base58(%s + groestlHash(%s)[:4])" % (dp, dp), "grs-checksum:%s" % name, ctx.where(g), "b2a_hashed_base58_grs is not base58(data || groestl(data)[:4])")
     if n < 3:
         raise AnalysisError("only %d networks with a non-default base58 checksum found" % n)
     p = ctx.func("pycoin/coins/groestlcoin/parse.py", "GRSParseAPI.parse_b58_hashed")
-    ctx.check("return parse_b58_groestl(s)" in norm(p.node), "grs-parser", ctx.where(p), "GRSParseAPI does not verify the groestl checksum")
+    wp = sym.walk(ctx, p)
+    ctx.check(bool(sym.calls_matching(wp, lambda t: t == "parse_b58_groestl")), "grs-parser", ctx.where(p), "GRSParseAPI does not verify the groestl checksum")
 
 
 OBLIGATIONS = [
-    Ob("C09.1", "hardened derivation from a public-only node is refused before any derivation; index range; metadata", c09_1, floor=9, engines="CFG,GI", breaks_if="pub.subkey(0, is_hardened=True)"),
-    Ob("C09.2", "CKDpriv / CKDpub message shapes, HMAC-SHA512, child = (I_L + k) mod n / I_L*G + K", c09_2, floor=12, engines="DF,SIB"),
-    Ob("C09.3", "memo key covers every derivation argument; node key material immutable; path and range expansion", c09_3, floor=9, engines="DF,EF", breaks_if="subkey(7) then subkey(7, as_private=False); ranges such as 7-8p,15"),
-    Ob("C09.4", "78-byte layout: writer widths and reader offsets; hwif uses the matching prefix family", c09_4, floor=10, engines="CT"),
+    Ob("C09.1", "hardened derivation from a public-only node is refused before any derivation; index range; metadata", c09_1, floor=7, engines="SYM,GI", breaks_if="pub.subkey(0, is_hardened=True)"),
+    Ob("C09.2", "CKDpriv / CKDpub message shapes, HMAC-SHA512, child = (I_L + k) mod n / I_L*G + K", c09_2, floor=3, engines="SYM"),
+    Ob("C09.3", "memo key covers every derivation argument; node key material immutable; path and range expansion", c09_3, floor=9, engines="SYM,EF", breaks_if="subkey(7) then subkey(7, as_private=False); ranges such as 7-8p,15"),
+    Ob("C09.4", "78-byte layout: writer widths and reader offsets; hwif uses the matching prefix family", c09_4, floor=8, engines="SYM"),
     Ob("C09.5", "extended-key text of the wrong length or content parses to None (shared with C18.3)", c09_5, floor=15, engines="GI,EX"),
-    Ob("C09.6", "Electrum public/private derivations share one offset", c09_6, floor=5, engines="DF"),
+    Ob("C09.6", "Electrum public/private derivations share one offset", c09_6, floor=1, engines="SYM"),
     Ob("C09.7", "per-network base58 checksum: parser override and every encoder patched together", c09_7, floor=15, engines="TB,PM", breaks_if="GRS yprv/zprv text"),
 ]
